@@ -184,6 +184,8 @@ pub trait Api: Send + Sync {
     fn insert(&self, k: K, v: Val, cost: i64, ttl: Duration) -> Result<bool, String>;
     fn iip(&self, k: K, v: Val, cost: i64) -> Result<bool, String>;
     fn remove(&self, k: K) -> Result<(), String>;
+    /// the panicking wrappers `remove` / `insert`: Err(panic message) if they panic
+    fn wrappers(&self, k: K, v: Val) -> Result<bool, String>;
     fn get(&self, k: K) -> Option<Val>;
     fn get_mut(&self, k: K) -> Option<Val>;
     fn get_hold(&self, k: K, ms: u32) -> Option<(Val, Duration, Duration)>;
@@ -208,6 +210,13 @@ fn ttl_of(ttl_ms: u32) -> Duration {
     } else {
         Duration::from_millis(ttl_ms as u64)
     }
+}
+
+fn wrapper_guard<T>(f: impl FnOnce() -> T) -> Result<T, String> {
+    std::panic::catch_unwind(std::panic::AssertUnwindSafe(f)).map_err(|p| {
+        let _ = panics_take();
+        p.downcast_ref::<String>().cloned().or_else(|| p.downcast_ref::<&str>().map(|s| s.to_string())).unwrap_or_default()
+    })
 }
 
 fn linger(us: u16) {
@@ -236,6 +245,12 @@ where
     }
     fn remove(&self, k: K) -> Result<(), String> {
         es(self.0.try_remove(&k))
+    }
+    fn wrappers(&self, k: K, v: Val) -> Result<bool, String> {
+        wrapper_guard(|| {
+            self.0.remove(&k);
+            self.0.insert(k, v, 1)
+        })
     }
     fn get(&self, k: K) -> Option<Val> {
         self.0.get(&k).map(|r| *r.value())
@@ -314,6 +329,12 @@ where
     }
     fn remove(&self, k: K) -> Result<(), String> {
         es(bo(self.0.try_remove(&k)))
+    }
+    fn wrappers(&self, k: K, v: Val) -> Result<bool, String> {
+        wrapper_guard(|| {
+            bo(self.0.remove(&k));
+            bo(self.0.insert(k, v, 1))
+        })
     }
     fn get(&self, k: K) -> Option<Val> {
         bo(self.0.get(&k)).map(|r| *r.value())
@@ -949,6 +970,16 @@ fn run_inner(case: &StressCase) -> SResult {
         match kind {
             Kind::Close => {
                 if !drop_only {
+                    // a close() has returned Ok during the run: from then on nothing may panic,
+                    // the unwrapping variants included
+                    if post_sh.closed_ok.load(Ordering::SeqCst) {
+                        post.enter(t, 3);
+                        let rw = api2.wrappers(1, Val { key: 1, serial: u32::MAX - 1, tag: 1 });
+                        post.leave(t);
+                        if let Err(p) = rw {
+                            return Some(SResult::violation(&["C12", "C20"], "panic_after_close", format!("after a close() that returned Ok, remove()/insert() (the unwrapping variants) panicked: {}", p)));
+                        }
+                    }
                     post.enter(t, 8);
                     let r = api2.close();
                     post.leave(t);
@@ -1048,6 +1079,11 @@ fn run_inner(case: &StressCase) -> SResult {
                         post.enter(t, 8);
                         let r4 = api2.close();
                         post.leave(t);
+                        // the panicking wrappers must be just as inert on a closed cache
+                        let rw = api2.wrappers(1, v);
+                        if rw != Ok(false) {
+                            return Some(SResult::violation(&["C12", "C20"], "wrappers_after_close", format!("after close: remove()/insert() (the unwrapping variants) gave {:?}, expected no panic and insert == false", rw)));
+                        }
                         if r1.is_err() || r2.is_err() || r3.is_err() || r4.is_err() {
                             return Some(SResult::violation(&["C12"], "ops_after_close", format!("after close: remove {:?} clear {:?} wait {:?} close {:?}", r1, r2, r3, r4)));
                         }
@@ -1569,7 +1605,7 @@ fn quiescent_invariants(case: &StressCase, api: &Arc<Box<dyn Api>>, sh: &Arc<Sha
         let sk: Vec<u64> = snap.entries.iter().map(|e| e.index).collect();
         let pk: Vec<u64> = snap.costs.iter().map(|(k, _)| *k).collect();
         if sk != pk {
-            let props: &[&str] = if sk.iter().any(|k| !pk.contains(k)) { &["C06", "C01"] } else { &["C06"] };
+            let props: &[&str] = if sk.iter().any(|k| !pk.contains(k)) { &["C06", "C01", "C16"] } else { &["C06"] };
             return Some(SResult::violation(props, "store_eq_policy", format!("at quiescence resident keys {:?} != charged keys {:?}", sk, pk)));
         }
         if snap.len != sk.len() {
@@ -1947,7 +1983,7 @@ pub fn stress_strategy(kind: Kind, async_pct: u32) -> BoxedStrategy<StressCase> 
                 let max_cost = units * (internal + 2);
                 let op = prop_oneof![
                     20 => sop_common(10, max_cost - internal),
-                    2 => (0u32..10, proptest::sample::select(vec![20u16, 100, 400, 1500]), any::<bool>()).prop_map(|(k, us, mutable)| SOp::GetLinger { k, us, mutable }),
+                    2 => (0u32..10, prop_oneof![12 => proptest::sample::select(vec![20u16, 100, 400, 1500]), 1 => Just(30_000u16)], any::<bool>()).prop_map(|(k, us, mutable)| SOp::GetLinger { k, us, mutable }),
                     clear_w.max(0) => Just(SOp::Clear),
                     1 => Just(SOp::Wait),
                     1 => (1i64..4).prop_map(move |u| SOp::UpdateMax { m: u * (internal + 2) * 3 }),
